@@ -228,6 +228,40 @@ pub fn handle(parts: &[&str], out: &mut impl Write) {
                 } else {
                     print_result(out, r, len);
                 }
+            } else if let Some(n) = parts[3].strip_prefix("fifo:") {
+                // read_file on a named pipe whose writer delivers the first n bytes, pauses, then
+                // delivers the rest: the file-backed result must not depend on how the bytes arrive
+                let n: usize = n.parse().unwrap_or(1).min(bytes.len());
+                let path = std::env::temp_dir().join(format!(
+                    "observe-fifo-{}-{}.aseprite",
+                    std::process::id(),
+                    parts[1].replace('/', "_")
+                ));
+                let _ = std::fs::remove_file(&path);
+                let made = std::process::Command::new("mkfifo").arg(&path).status().map(|s| s.success()).unwrap_or(false);
+                if !made {
+                    writeln!(out, "no-fifo").unwrap();
+                } else {
+                    let (wp, data) = (path.clone(), bytes.clone());
+                    let writer = std::thread::spawn(move || {
+                        if let Ok(mut f) = std::fs::OpenOptions::new().write(true).open(&wp) {
+                            let _ = f.write_all(&data[..n]);
+                            let _ = f.flush();
+                            std::thread::sleep(std::time::Duration::from_millis(60));
+                            let _ = f.write_all(&data[n..]);
+                        }
+                    });
+                    let r = crate::guard(|| AsepriteFile::read_file(&path));
+                    // unblock the writer if the loader stopped reading early
+                    let drain = {
+                        use std::os::unix::fs::OpenOptionsExt;
+                        std::fs::OpenOptions::new().read(true).custom_flags(0o4000).open(&path) // O_NONBLOCK
+                    };
+                    drop(drain);
+                    let _ = writer.join();
+                    let _ = std::fs::remove_file(&path);
+                    print_result(out, r, len);
+                }
             } else if parts[3] == "missingfile" || parts[3] == "dirfile" {
                 // read_file on a path that does not exist / on a directory: the error the OS reported
                 // (compared with what std::fs reports for the same path) must be the one carried as source
@@ -329,11 +363,18 @@ pub fn handle_history(parts: &[&str], out: &mut impl Write) {
     // an optional fifth word `keep`: sprite A stays alive while B is loaded and observed;
     // `fail:<n>`: A is read through a reader that fails with a hard error after n bytes
     let keep = parts.len() == 5 && parts[4] == "keep";
+    // `files`: A and B are both loaded through `AsepriteFile::read_file` (temp files); B may be a
+    // file that does not load: then the outcome after the history must equal the fresh outcome
+    let files = parts.len() == 5 && parts[4] == "files";
     let fail_at: Option<usize> = if parts.len() == 5 {
         parts[4].strip_prefix("fail:").and_then(|n| n.parse().ok())
     } else {
         None
     };
+    if files {
+        history_files(parts, out);
+        return;
+    }
     if parts.len() != 4 && !keep && fail_at.is_none() {
         writeln!(out, "bad-op").unwrap();
         return;
@@ -401,6 +442,65 @@ pub fn handle_history(parts: &[&str], out: &mut impl Write) {
             }
         }
         _ => writeln!(out, "bad-hex").unwrap(),
+    }
+    writeln!(out, "END").unwrap();
+    out.flush().unwrap();
+}
+
+fn history_files(parts: &[&str], out: &mut impl Write) {
+    writeln!(out, "CASE {}", parts[1]).unwrap();
+    out.flush().unwrap();
+    let (a, b) = match (crate::unhex(parts[2]), crate::unhex(parts[3])) {
+        (Some(a), Some(b)) => (a, b),
+        _ => {
+            writeln!(out, "bad-hex\nEND").unwrap();
+            return;
+        }
+    };
+    let dir = std::env::temp_dir();
+    let tag = format!("{}-{}", std::process::id(), parts[1].replace('/', "_"));
+    let pa = dir.join(format!("observe-hist-a-{}.aseprite", tag));
+    let pb = dir.join(format!("observe-hist-b-{}.aseprite", tag));
+    std::fs::write(&pa, &a).unwrap();
+    std::fs::write(&pb, &b).unwrap();
+    let blen = b.len();
+    let load_b = move |pb: &std::path::Path| -> Vec<String> {
+        match crate::guard(|| AsepriteFile::read_file(pb)) {
+            None => vec!["load panic".to_string()],
+            Some(Err(e)) => vec![format!("load err {}", crate::err_name(&e))],
+            Some(Ok(ase)) => {
+                let mut v = vec!["load ok".to_string()];
+                match crate::guard(|| observe_all(&ase, blen)) {
+                    Some(o) => v.extend(o),
+                    None => v.push("observe PANIC".to_string()),
+                }
+                v
+            }
+        }
+    };
+    let pb1 = pb.clone();
+    let lb1 = load_b.clone();
+    let fresh = std::thread::spawn(move || lb1(&pb1)).join().unwrap_or_else(|_| vec!["load panic".to_string()]);
+    let (pa2, pb2) = (pa.clone(), pb.clone());
+    let after = std::thread::spawn(move || {
+        for _ in 0..2 {
+            if let Some(Ok(first)) = crate::guard(|| AsepriteFile::read_file(&pa2)) {
+                let _ = crate::guard(|| observe_all(&first, 0));
+            }
+        }
+        load_b(&pb2)
+    })
+    .join()
+    .unwrap_or_else(|_| vec!["load panic".to_string()]);
+    let _ = std::fs::remove_file(&pa);
+    let _ = std::fs::remove_file(&pb);
+    for l in &after {
+        writeln!(out, "{}", l).unwrap();
+    }
+    if fresh != after {
+        let k = fresh.iter().zip(after.iter()).position(|(x, y)| x != y).unwrap_or(fresh.len().min(after.len()));
+        let show = |v: &Vec<String>| v.get(k).map(|s| s.chars().take(160).collect::<String>()).unwrap_or_default();
+        writeln!(out, "differs after-history line {} fresh=[{}] after=[{}]", k, show(&fresh), show(&after)).unwrap();
     }
     writeln!(out, "END").unwrap();
     out.flush().unwrap();
